@@ -128,16 +128,31 @@ def callEntry (c : List Rat) (nsub : Nat) (F : Rat) (af t : Nat) : Rat := callEn
 
 /-! ### no-call and enough-coverage probabilities -/
 
-/-- P_case0 + P_case1a + P_case1b for one partition, weighted (generated expressions) -/
-def nocallPart (c : List Rat) (g : List Nat) (pr : Rat) : Rat :=
+/-- P_case0 + P_case1a + P_case1b for one partition of allele count `af`, weighted (generated expressions; the guard of
+    `P_case1a` is the generated one and may look at `af`) -/
+def nocallPart (c : List Rat) (af : Nat) (g : List Nat) (pr : Rat) : Rat :=
   let sumD := fun f => sumTo c.length f
   let a : Int := ((g.count homAltValue : Nat) : Int)
   let h : Int := ((g.count hetValue : Nat) : Int)
-  nocallTerm pr (P_case0 sumD (covAt c) a h) (P_case1a sumD (covAt c) a h) (P_case1b sumD (covAt c) a h)
+  nocallTerm pr (P_case0 sumD (covAt c) a h) (P_case1a sumD (covAt c) (af : Nat) a h) (P_case1b sumD (covAt c) a h)
 
 /-- `probability_of_no_call_1D_GATK_multisample(cov, n_sequenced, Fx)[af]` -/
 def nocall (c : List Rat) (nseq : Nat) (F : Rat) (af : Nat) : Rat :=
-  lsum ((pw af (nseq / 2) F).map fun gp => nocallPart c gp.1 gp.2)
+  lsum ((pw af (nseq / 2) F).map fun gp => nocallPart c af gp.1 gp.2)
+
+/-- every `**` that the code evaluates for the configuration `g` of allele count `af` is defined (generated conditions, under
+    the guards the code uses): no zero base with a negative exponent -/
+def nocallDefinedAt (c : List Rat) (af : Nat) (g : List Nat) : Bool :=
+  nocallDefined (fun f => sumTo c.length f) (covAt c) (af : Nat) ((g.count homAltValue : Nat) : Int) ((g.count hetValue : Nat) : Int)
+
+/-- … for every allele count and every configuration that `probability_of_no_call_1D_GATK_multisample` visits -/
+def nocallOk (c : List Rat) (nseq : Nat) : Bool :=
+  (List.range (nseq + 1)).all fun af => (part af (nseq / 2) 0 2).all (nocallDefinedAt c af)
+
+/-- the divisions of `prob_het_err` are defined (the tail of the coverage distribution has non-zero mass) -/
+def hetErrOk (c : List Rat) : Bool :=
+  (List.range (c.length - 1)).all (fun k => covNormDefined (covAt c (k + 1)) (covTail c)) &&
+    probHetErrDefined (fun f => sumTo (c.length - 1) f) (fun k => covNorm (covAt c (k + 1)) (covTail c)) (fun k => ((k + 1 : Nat) : Int))
 
 /-- Σ over `range(lo, hi)` -/
 def sumIco (lo hi : Int) (f : Int → Rat) : Rat := sumTo (hi - lo).toNat (fun t => f (lo + (t : Nat)))
@@ -146,6 +161,12 @@ def sumIco (lo hi : Int) (f : Int → Rat) : Rat := sumTo (hi - lo).toNat (fun t
 def probEnough (c : List Rat) (nseq nsub : Nat) : Rat :=
   sumIco (enoughLo (nseq : Nat) (nsub : Nat)) (enoughHi (nseq : Nat) (nsub : Nat))
     (fun k => enoughSummand (covAt c 0) (covTail c) (nseq : Nat) k)
+
+/-- every power in the loop of `probability_enough_individuals_covered` is defined -/
+def probEnoughOk (c : List Rat) (nseq nsub : Nat) : Bool :=
+  let lo := enoughLo (nseq : Nat) (nsub : Nat)
+  (List.range (enoughHi (nseq : Nat) (nsub : Nat) - lo).toNat).all fun t =>
+    enoughSummandDefined (covAt c 0) (covTail c) (nseq : Nat) (lo + (t : Nat))
 
 /-! ### the corrected model (any number of populations) -/
 
@@ -235,5 +256,40 @@ def peAll (pops : List Pop) : Rat := pops.foldl (fun acc p => acc * probEnough p
 /-- everything `low_cov_precalc_GATK_multisample_GATK_multisample` prepares for the analytic part -/
 def axesOf (pops : List Pop) : List Axis :=
   pops.map fun p => mkAxis p.c p.nseq p.nsub p.F (peAll pops)
+
+/-! ### the plain projection and the deep-coverage bound (what `C18_deep_coverage` compares the corrected model with) -/
+
+/-- the reference axis of one population: `projection_matrix(nseq, nsub, F)` alone — no thinning by the no-call probability,
+    no enough-coverage factor, no calling error (for F = 0 the hypergeometric projection of `Spectrum.project`) -/
+def refAxis (p : Pop) : Axis :=
+  let P := tabOfRows ((List.range (p.nseq + 1)).map (projRow p.nseq p.nsub p.F))
+  { nIn := p.nseq + 1, nOut := p.nsub + 1, K := tableAt P, pnc := fun _ => 0 }
+
+def refAxesOf (pops : List Pop) : List Axis := pops.map refAxis
+
+/-- the smallest depth with non-zero probability (length of the list if there is none) -/
+def minDepth : List Rat → Nat
+  | [] => 0
+  | v :: c => if v = 0 then minDepth c + 1 else 0
+
+/-- bound on the no-call probability of a polymorphic entry when no depth below `D` has mass -/
+def deepEps (D nseqMax : Nat) : Rat := (1 + (nseqMax : Rat) * (D : Rat)) * (1 / 2) ^ D
+
+/-- bound on the ℓ¹ distance of a row of one population's kernel from the row of its projection matrix -/
+def deepDelta (D nsubMax : Nat) : Rat := 4 * (nsubMax : Rat) * (1 / 2) ^ D
+
+def maxOf (l : List Nat) : Nat := l.foldl Nat.max 0
+
+def minOf : List Nat → Nat
+  | [] => 0
+  | a :: l => l.foldl Nat.min a
+
+/-- the smallest depth that has non-zero probability in some population -/
+def deepDepth (pops : List Pop) : Nat := minOf (pops.map fun p => minDepth p.c)
+
+/-- Σ_j |corrected_j − projected_j| ≤ (deepBound + σ) · Σ_i |model_i| (`C18_deep_coverage`; σ = deviation of the simulated tables) -/
+def deepBound (pops : List Pop) : Rat :=
+  deepEps (deepDepth pops) (maxOf (pops.map (·.nseq)))
+    + (pops.length : Rat) * deepDelta (deepDepth pops) (maxOf (pops.map (·.nsub)))
 
 end DadiVerif.LowPass
